@@ -598,6 +598,29 @@ example : locatedEx.arranged.items.map (·.loc.startLine) = [1, 5] := by decide
 /-- `C05_reparse` applies to the located file -/
 example := C05_reparse "gen" locatedEx locatedEx_ok
 
+/-- fields with bracket options and custom JSON names, with source lines (the shape of a j5s-compiled field):
+`optional string foo_id = 1 [` / `(j5.ext.v1.field).string = {},` / `json_name = "foo_id"` / `];` and a map
+field with two options -/
+def exO1 : SOpt := ⟨"(j5.ext.v1.field).string", [.msg "" []], false, false, false, 0, 0, "j5.ext.v1.field"⟩
+def exO2 : SOpt := ⟨"deprecated", [.scalar "" "true"], false, false, false, 0, 1, "deprecated"⟩
+/-- an option with a message literal that fits one line: `(x.y).z = {min_len: 1}`. (Values that take several lines
+— nested messages, lists — are inside `OptField` as well and the checker accepts them (`#eval`); the kernel cannot
+*evaluate* `msgFields` (compiled by well-founded recursion), so they have no `decide` example here.) -/
+def exO3 : SOpt := ⟨"(x.y).z", [.msg "" [.scalar "min_len" "1"]], false, false, false, 0, 0, "x.y"⟩
+def optEx : FileD :=
+  ⟨Loc.none, "p.v1", [], [], [],
+   [ .block "message" 1 ⟨5, 12, [], "", ""⟩ 0 "M" []
+       [ .field ⟨.field, ⟨7, 7, [], "", ""⟩, 0, "optional ", "string", "foo_id", 1, some "foo_id", [exO1]⟩,
+         .field ⟨.field, ⟨9, 9, [], "", ""⟩, 1, "", "map<string, .p.M>", "m", 2, some "m", [exO1, exO2]⟩,
+         .field ⟨.field, ⟨10, 10, [], "", ""⟩, 2, "", "M", "only_json", 3, some "only_json", []⟩,
+         .field ⟨.field, ⟨11, 11, [], "", ""⟩, 3, "repeated ", "int32", "n", 4, some "n", [exO3]⟩ ] ]⟩
+
+theorem optEx_ok : SimpleFile "gen" optEx.arranged :=
+  Cover.simpleFileB_sound "gen" optEx.arranged (by decide +kernel)
+
+/-- `C05_reparse` applies to it -/
+example := C05_reparse "gen" optEx optEx_ok
+
 /-- the example is its own arrangement (the service before the message; fields before the nested message before the enum) -/
 example : simpleEx.arranged = simpleEx := by rfl
 
